@@ -313,7 +313,7 @@ def evaluate(cases, results, shard=40):
 def correspond(ctx, n=None):
     corpus = corpus_cases() if n is None else []
     n = n or ctx.n(300, 10000)
-    cases = corpus + [G.gen_scenario(ctx.rng, plain=ctx.rng.random() < 0.4) for _ in range(n - len(corpus))]
+    cases = corpus + [G.A.lookalike_ids(ctx.rng, G.gen_scenario(ctx.rng, plain=ctx.rng.random() < 0.4)) for _ in range(n - len(corpus))]
     results = C.run_impl('plutusbuild_driver', {'cases': cases})
     mism, ofail, outside, errs = evaluate(cases, results)
     if errs:
